@@ -5,6 +5,7 @@ import (
 	"fmt"
 	"sort"
 	"strings"
+	"time"
 
 	"github.com/aundis/formula"
 	"github.com/ericlagergren/decimal"
@@ -28,7 +29,7 @@ var c07 = core.Register(&core.Prop{
 	Shards: func(tier string) int { return pickTier(tier, 8, 16) },
 	Floors: func(c map[string]int64, tier string) []string {
 		var out []string
-		for _, k := range []string{"store_cases", "second_evaluation_cases", "assignments_checked", "log_entries_checked", "forbidden_target_cases", "frame_checks", "frame_checks_general", "error_runs_frame_checked"} {
+		for _, k := range []string{"store_cases", "second_evaluation_cases", "assignments_checked", "log_entries_checked", "forbidden_target_cases", "binding_cases", "frame_checks", "frame_checks_general", "error_runs_frame_checked"} {
 			if c[k] == 0 {
 				out = append(out, "coverage floor: no "+k)
 			}
@@ -269,6 +270,72 @@ var c07Forbidden = core.Mon(c07, "forbidden-target", func(w *core.W, c *Forbidde
 	}
 })
 
+// BindCase: `$a = V` has V's value, exactly (not a rounded or re-formatted copy), now and on later reads.
+type BindCase struct {
+	Val  string `json:"val"`  // formula text of the value (literal or data name)
+	Read string `json:"read"` // how the local is read back
+}
+
+var bindValues = []string{"1234567890123456789012345678901234567890", "0.1234567890123456789012345678901234567", "1.50", "1e40", "12345678901234567890123456789012345.5", "-0.000000000000000000000000000000000001234567",
+	"dwide", "dwide2", "d150", "'text'", "[1.50, 'x']", "true", "null", "dt", "dm", "100", "0.0", "123456789012345678901234567890123456e10"}
+
+var c07Bind = core.Mon(c07, "binding-exactness", func(w *core.W, c *BindCase) {
+	wide, _ := new(decimal.Big).SetString("9876543210987654321098765432109876543210.123456789")
+	wide2 := decimal.New(1234567890123456789, 0)
+	data := func() map[string]interface{} {
+		return map[string]interface{}{"dwide": wide, "dwide2": wide2, "d150": decimal.New(150, 2), "dt": time.Unix(1700000000, 5).UTC(), "dm": map[string]interface{}{"k": decimal.New(250, 2)},
+			"fid": func(x interface{}) (interface{}, error) { return x, nil }}
+	}
+	w.Eval(1)
+	w.Count("binding_cases")
+	w.Nontrivial("bind:" + c.Val + "|" + c.Read)
+	want, err0, p0, _ := resolveIn(data(), "["+c.Val+"]")
+	if p0 || err0 != nil {
+		w.Skip("value-not-evaluable")
+		return
+	}
+	src := strings.ReplaceAll(c.Read, "V", c.Val)
+	got, err, p, pv := resolveIn(data(), src)
+	if p || err != nil {
+		w.Violation("binding-exactness", "C07/binding-error", c, show(want), fmt.Sprint(pv, err), src)
+		return
+	}
+	arr, _ := got.([]interface{})
+	wv := want.([]interface{})[0]
+	for i, g := range arr {
+		if obs.SnapshotValues(g) != obs.SnapshotValues(wv) {
+			w.Violation("binding-exactness", "C07/binding-changes-value", c, show(wv)+" "+clipS(obs.SnapshotValues(wv), 160), show(g)+" "+clipS(obs.SnapshotValues(g), 160),
+				fmt.Sprintf("element %d of %s must be exactly the value of %s", i, src, c.Val))
+			return
+		}
+	}
+	// and across evaluations of one runner
+	d := data()
+	r := formula.NewRunner()
+	r.SetThis(d)
+	for _, f := range []string{"$keep = " + c.Val, "1 + 1", "[$keep]"} {
+		sc, perr := formula.ParseSourceCode([]byte(f))
+		if perr != nil {
+			return
+		}
+		var v interface{}
+		var rerr error
+		pp, _ := core.Call(func() { v, rerr = r.Resolve(context.Background(), sc.Expression) })
+		if pp || rerr != nil {
+			w.Violation("binding-exactness", "C07/binding-error", c, show(want), fmt.Sprint(rerr), f)
+			return
+		}
+		if f == "[$keep]" {
+			g := v.([]interface{})[0]
+			if obs.SnapshotValues(g) != obs.SnapshotValues(wv) {
+				w.Violation("binding-exactness", "C07/binding-changes-value", c, show(wv)+" "+clipS(obs.SnapshotValues(wv), 160), show(g)+" "+clipS(obs.SnapshotValues(g), 160),
+					"a local read in a later evaluation must still be exactly the value bound by `$keep = "+c.Val+"` (which was that evaluation's top-level result)")
+				return
+			}
+		}
+	}
+})
+
 var c07Frame = core.Mon(c07, "frame", func(w *core.W, c *EvalCase) {
 	sc, err := formula.ParseSourceCode([]byte(c.Src))
 	if err != nil {
@@ -337,6 +404,16 @@ func runC07(w *core.W) {
 		for j, tmpl := range []string{"%s = 1", "$z = 1, %s = 2", "[%s = 1]", "rec(%s = 1)", "true ? (%s = 1) : 0", "(%s = 1)", "%s = $a = 1", "$b = %s = 1"} {
 			if w.Mine(i*8 + j) {
 				c07Forbidden(w, &ForbiddenCase{Src: fmt.Sprintf(tmpl, t), AssignsSA: strings.Contains(tmpl, "$a =")})
+			}
+		}
+	}
+	// exactness of bindings
+	bi := 0
+	for _, v := range bindValues {
+		for _, rd := range []string{"[$a = V]", "[$a = V, $a]", "$a = V, [$a]", "[($a = V), $a, $a]", "$a = $b = V, [$a, $b]", "[true ? ($a = V) : 0, $a]", "$a = V, $b = $a, [$b]", "[fid($a = V), $a]"} {
+			bi++
+			if w.Mine(bi) {
+				c07Bind(w, &BindCase{Val: v, Read: rd})
 			}
 		}
 	}
